@@ -44,9 +44,11 @@ CHECKS={
 "C31":("ddsim","5/C31","deterministic simulation: deadlines, lifespans, short foreign leases and blocked writes placed on/around multiples of the poke period; every worker timer request <= 50 ms and no wake-up gap"),
 "C32":("ddsim","5/C32","deterministic simulation: waiters racing status raisers, status readers and mask changers under random/PCT schedules; trigger-value model at quiescent points, missed wake-up detection"),
 "C33":("ddsim","5/C33","deterministic simulation: listener x mask configurations on three levels, seven kinds of status events; precedence model: exactly one callback at the most specific enabled level"),
+"C34":("shuttle","5/C34","deterministic thread-level simulation (shuttle, seeded random and PCT schedulers): the three channel source files compiled verbatim against a scheduler-controlled critical-section; senders, receivers, waker swaps and drops on separate threads; oracle: exactly-once, per-sender FIFO, disconnection only after all senders dropped, lost wake-up = deadlock"),
 "C35":("ddsim","5/C35","deterministic simulation: long create/delete histories (beyond 256 entities of a kind) with handle-uniqueness invariant, panic/hang detection"),
 "C36":("ddsim","5/C36","deterministic simulation: concurrent create/delete/operate histories over the entity tree incl. wrong parents and deleted entities; linearizability against an entity-tree model"),
 "C37":("ddsim","5/C37","deterministic simulation: concurrent create/set_qos/get_qos with consistent, inconsistent and immutable changes; linearizability against a QoS model"),
+"C42":("shuttle","5/C42","deterministic thread-level simulation (shuttle) of std_runtime/timer.rs and executor.rs with std:: redirected to a scheduler-controlled std (virtual clock, firing receive timeouts, bounded spurious park wake-ups): concurrent sleeps, cancelled sleeps, executor tasks with join, block_timeout, cross-thread wake; oracle on virtual time: no early completion, no wake after cancellation, Timeout only after the duration, lost wake-up = deadlock"),
 }
 import os
 claimed=[c for c in CHECKS if os.environ.get('ONLY') is None or c in os.environ['ONLY'].split(',')]
@@ -54,7 +56,7 @@ hooks_commits=[]
 m={"version":1,
 "setup_cmd":"./setup.sh",
 "hooks":{"guard":"dust_dds_verif","enable":"no hooks are needed: the simulator plugs into dust-dds' public DdsRuntime / TransportParticipantFactory seams (DomainParticipantFactoryAsync::new)","baseline_off_cmd":"cd /repo && cargo test --workspace --no-fail-fast --offline","source_commits":hooks_commits,"add_only":True},
-"engines":[{"name":"ddsim","path":"/verif/sim","serves_properties":[c for c in claimed if CHECKS[c][0]=="ddsim"],"kind_free_text":"single-threaded discrete-event simulator: own executor, virtual clock/timers, in-memory faulty datagram network; runs the real dust-dds stack through its public runtime/transport seams; one forked process per run"}],
+"engines":[{"name":"shuttle","path":"/verif/shuttle","serves_properties":[c for c in claimed if CHECKS[c][0]=="shuttle"],"kind_free_text":"thread-level deterministic simulation with shuttle 0.9.3 (seeded random / PCT schedulers, replayable schedules); sources under test copied from /repo at build time; own virtual clock, timed channels and park/unpark"},{"name":"ddsim","path":"/verif/sim","serves_properties":[c for c in claimed if CHECKS[c][0]=="ddsim"],"kind_free_text":"single-threaded discrete-event simulator: own executor, virtual clock/timers, in-memory faulty datagram network; runs the real dust-dds stack through its public runtime/transport seams; one forked process per run"}],
 "checks":[{
   "property_id":c,
   "quick_cmd":f"./check {c} --tier quick",
@@ -63,7 +65,7 @@ m={"version":1,
   "replay_cmd_template":f"./check {c} --replay {{path}}",
   "engine":CHECKS[c][0],
   "level_claimed":{"category":"exploration","text":"seeded search over schedules and fault sequences of whole-system simulated executions; a clean batch is evidence that the property holds on the explored executions, not a proof","design_ref":"DESIGN.md section "+CHECKS[c][1]},
-  "level_note":"trusts the simulator's executor/clock/network as a model of legal runtime and UDP behaviour, the reference models/oracles in /verif/sim/src/scen, and the Rust toolchain; real dust-dds code runs unmodified (no hooks)",
+  "level_note":("trusts shuttle's scheduler as a model of sequentially consistent threads, the hand-written simstd (clock, mpsc with timeouts, park) as a model of std, and the oracles in /verif/shuttle/src" if CHECKS[c][0]=="shuttle" else "trusts the simulator's executor/clock/network as a model of legal runtime and UDP behaviour, the reference models/oracles in /verif/sim/src/scen, and the Rust toolchain; real dust-dds code runs unmodified (no hooks)"),
   "technique":CHECKS[c][2],
  } for c in claimed],
 "notes":"Known findings and fixed defects: /verif/known_findings.json. Violations print 'VIOLATION property=<id> replay=<path>' and exit 1; harness errors exit 2.",
